@@ -185,6 +185,12 @@ type c47Prom struct {
 
 func (p *c47Prom) RoundTrip(req *http.Request) (*http.Response, error) {
 	w := p.w
+	// RetryWithLog selects between "deadline reached" and "retry tick" and both can be ready at once
+	// (the runtime then picks at random): an attempt made after the deadline never leaves the reloader
+	// and must not be visible in the log or in the operation numbering.
+	if err := req.Context().Err(); err != nil {
+		return nil, err
+	}
 	id := p.s.OpID("prometheus", "reload")
 	w.mu.Lock()
 	w.requests++
@@ -265,15 +271,21 @@ func c47WatchLoop(ctx context.Context, s *simkit.Sim, w *c47World, r *reloader.R
 	}
 	applyCtx, applyCancel := context.WithTimeout(ctx, watchInterval)
 	for {
+		// Watch selects on both; when both are ready the runtime picks at random. Both resolutions are
+		// legal; the mirror resolves the tie deterministically (pending notification first).
 		why := "notification"
 		select {
-		case <-applyCtx.Done():
-			if ctx.Err() != nil {
-				applyCancel()
-				return nil
-			}
-			why = "interval"
 		case <-notify:
+		default:
+			select {
+			case <-applyCtx.Done():
+				if ctx.Err() != nil {
+					applyCancel()
+					return nil
+				}
+				why = "interval"
+			case <-notify:
+			}
 		}
 		applyCancel()
 		applyCtx, applyCancel = context.WithTimeout(ctx, watchInterval)
@@ -443,7 +455,9 @@ func runC47(x *simkit.Exec) {
 		if faultsOn {
 			s.PlanRates([]string{"reload:5xx", "reload:hang", "reload:neterr"}, []int{0, 250, 600})
 		}
-		s.Delays = []time.Duration{retryInterval, watchInterval}
+		// the scheduler's own sleeps must never end at the very instant another timer of the bubble fires
+		// (retry ticks, deadlines): which of two simultaneous timers runs first is up to the runtime
+		s.Delays = []time.Duration{retryInterval + 700100*time.Microsecond, watchInterval + 1300300*time.Microsecond}
 		opts := &reloader.Options{
 			ReloadURL:                     &url.URL{Scheme: "http", Host: "prometheus.sim:9090", Path: "/-/reload"},
 			HTTPClient:                    http.Client{Transport: &c47Prom{s: s, w: w}},
@@ -524,7 +538,7 @@ func runC47(x *simkit.Exec) {
 			s.FaultsOff = true
 			s.Delays = nil
 			s.Note("editor: quiet phase starts")
-			time.Sleep(3*watchInterval + time.Second)
+			time.Sleep(3*watchInterval + 1500*time.Millisecond + 7*time.Microsecond)
 		})
 		s.Loop()
 		if s.Stuck() {
